@@ -436,6 +436,10 @@ def ovec_streams(kind, orc, project=None):
                              lambda c, o: True, False,
                              "2 x 4 x %d free-running rounds: the ObservableVector (capacity 1..4) is mutated back to back on another thread (200 operations incl. transactions) while the plain / batched stream is polled, so lag is detected in the middle of a drain (the Lagged arms inside handle_lag and the batched drain loop, which a single-threaded history cannot reach); every delivered diff must be applicable and the replica equals the contents once the writer is done" % r,
                              lambda c, o: c.split()[0], oracles={"racefinal", "raceorder"}))
+        if kind in ("c07", "c17"):
+            st.append(Stream("txn-entries", "ovec", gens.ovec_txn_entries(3 if q else 4), ovec_nontriv, True,
+                             "every transaction body of <= %d operations over 12 (index-addressed set, entry set, index shifts by remove / pop_front / push_front / insert, entry removals, traversals with set / remove / set-then-remove) on [1,2,3,4], committed or dropped, plain and batched subscriber" % (3 if q else 4),
+                             ovec_hist, oracles=orc, project=project))
         st.append(Stream("random", "ovec", gens.ovec_random(rng, n, lagbias=(kind in ("c06", "c08"))), ovec_nontriv, False,
                          "%d seeded random histories of 3..60 operations: all mutators (5%% out of range), entry traversals, transactions with rollbacks, up to 4 subscribers of both flavours created and dropped at any time, polls and drains, capacities 1..16%s" % (n, ", low poll rates" if kind in ("c06", "c08") else ""),
                          ovec_hist, oracles=orc, project=project))
@@ -498,7 +502,7 @@ def c16_streams(tier, rng):
         Stream("random", "obs", gens.obs_random(rng, n, heads=AHEADS, counts=False), obs_nontriv, False,
                "%d seeded random histories of 10..40 calls on the async flavour" % n, obs_hist, oracles=orc),
         Stream("guarded-exhaustive", "aobs", gcases, aobs_nontriv, True,
-               "every history of <= %s calls (1 / 2 subscribers) over write().await / read().await guards kept across calls, set, set_if_not_eq, set_if_hash_not_eq, take, update, update_if, get, next, next_ref, next_now, Stream polling, set through a held guard, dropping a held guard; every call is a future with its own counting waker, re-polled by the executor (smallest id first) whenever its waker fired; guards still held are dropped at the end" % " / ".join(str(l) for l, _ in gl),
+               "every history of <= %s calls (1 / 2 subscribers) over write().await / read().await guards kept across calls, set, set_if_not_eq, set_if_hash_not_eq, take, update, update_if, get, subscribe, next, next_ref, next_now, Stream polling, set through a held guard, dropping a held guard; every call is a future with its own counting waker, re-polled by the executor (smallest id first) whenever its waker fired; guards still held are dropped at the end" % " / ".join(str(l) for l, _ in gl),
                aobs_hist, oracles=aorc),
         Stream("guarded-sandwich", "aobs", gens.aobs_sandwich(1, q) + (gens.aobs_sandwich(2, q) if not q else []), aobs_nontriv, True,
                "write ; X ; Y ; set through the guard ; drop the guard ; Z ; W for all calls X Y Z W (two futures queued behind a held write guard in either order, then two follow-up calls)",
